@@ -206,20 +206,29 @@ Lemma WF_Lst_inv : forall dims p l, WF dims p (Lst l) -> Forall (WF dims None) l
 Proof. intros dims p l H. inversion H; subst. assumption. Qed.
 
 Definition plain_map (dims : list dim) (kv : list (string * tree)) : Prop :=
-  NoDup (map fst kv) /  (forall k, In k (map fst kv) ->
-             k <> default_key /\ forall d, In d dims -> d_parse d k = None) /  Forall (fun q => WF dims None (snd q)) kv.
+  NoDup (map fst kv) /\
+  (forall k, In k (map fst kv) ->
+             k <> default_key /\ forall d, In d dims -> d_parse d k = None) /\
+  Forall (fun q => WF dims None (snd q)) kv.
 
 Definition switch_map (dims : list dim) (p : option nat) (i : nat) (d : dim)
            (kv : list (string * tree)) : Prop :=
-  NoDup (map fst kv) /  nondefault_keys kv <> [] /  nth_error dims i = Some d /  (forall k, In k (nondefault_keys kv) -> d_parse d k <> None) /  (forall j dj, j < i -> nth_error dims j = Some dj ->
-                exists k, In k (nondefault_keys kv) /\ d_parse dj k = None) /  NoDup (parsed_values d (nondefault_keys kv)) /  p <> Some i /  Forall (fun q => WF dims (Some i) (snd q)) kv.
+  NoDup (map fst kv) /\
+  nondefault_keys kv <> [] /\
+  nth_error dims i = Some d /\
+  (forall k, In k (nondefault_keys kv) -> d_parse d k <> None) /\
+  (forall j dj, j < i -> nth_error dims j = Some dj ->
+                exists k, In k (nondefault_keys kv) /\ d_parse dj k = None) /\
+  NoDup (parsed_values d (nondefault_keys kv)) /\
+  p <> Some i /\
+  Forall (fun q => WF dims (Some i) (snd q)) kv.
 
 Lemma WF_Mp_inv : forall dims p kv, WF dims p (Mp kv) ->
   plain_map dims kv \/ exists i d, switch_map dims p i d kv.
 Proof.
   intros dims p kv H. inversion H; subst.
-  - left. repeat split; assumption.
-  - right. exists i, d. repeat split; assumption.
+  - left. unfold plain_map. tauto.
+  - right. exists i, d. unfold switch_map. tauto.
 Qed.
 
 Lemma WF_no_default_only : forall dims t p, WF dims p t -> no_default_only t.
@@ -584,7 +593,7 @@ Proof.
   - rewrite !resolve_Lst. f_equal. f_equal.
     induction H as [|a b l l' [_ Hab] _ IH]; [reflexivity|]. cbn. rewrite Hab, IH. reflexivity.
   - rewrite (resolve_plain dims kv H), (resolve_plain dims kv' H0). f_equal. f_equal.
-    induction H1 as [|a b l l' [Hk [_ Hab]] _ IH]; [reflexivity|].
+    clear H H0. induction H1 as [|a b l l' [Hk [_ Hab]] _ IH]; [reflexivity|].
     cbn [rmap map]. rewrite Hk, Hab. f_equal. exact IH.
   - rewrite (resolve_switch dims kv d H), (resolve_switch dims kv' d' H0), H1, H2. exact IHAgree.
   - rewrite (resolve_switch dims kv d H), (resolve_switch dims kv' d' H0), H1, H2. reflexivity.
@@ -638,3 +647,101 @@ Lemma fixed_on_witnesses :
   load_model dims12 witness_b = Ok [("k", Str "x")] /\
   load_model dims12 witness_c = Ok [("k", Str "z")].
 Proof. repeat split; vm_compute; reflexivity. Qed.
+
+(* ------------------------------------------------------------------ "the entry for the
+   selected value": in a well-formed switch it is unique, so the first-match search of
+   active_entry (and of the code's `range`) finds exactly it, whatever the iteration order *)
+Lemma parsed_values_in : forall d keys k v,
+  In k keys -> d_parse d k = Some v -> In v (parsed_values d keys).
+Proof.
+  intros d keys k v Hin Hp. unfold parsed_values. apply in_flat_map. exists k.
+  split; [exact Hin|]. rewrite Hp. left. reflexivity.
+Qed.
+
+Lemma parsed_values_two : forall d keys k1 k2 v,
+  NoDup keys -> NoDup (parsed_values d keys) ->
+  In k1 keys -> In k2 keys -> d_parse d k1 = Some v -> d_parse d k2 = Some v -> k1 = k2.
+Proof.
+  intros d keys. induction keys as [|k r IH]; intros k1 k2 v Hnd Hv H1 H2 P1 P2; [inversion H1|].
+  inversion Hnd as [|? ? Hnotin Hnd']; subst.
+  unfold parsed_values in Hv. cbn [flat_map] in Hv. fold (parsed_values d r) in Hv.
+  destruct H1 as [H1|H1]; destruct H2 as [H2|H2]; subst.
+  - reflexivity.
+  - exfalso. rewrite P1 in Hv. cbn in Hv. inversion Hv as [|? ? Hn _]; subst.
+    apply Hn. eapply parsed_values_in; eassumption.
+  - exfalso. rewrite P2 in Hv. cbn in Hv. inversion Hv as [|? ? Hn _]; subst.
+    apply Hn. eapply parsed_values_in; eassumption.
+  - apply (IH k1 k2 v); try assumption.
+    destruct (d_parse d k); [|exact Hv]. cbn in Hv. inversion Hv; assumption.
+Qed.
+
+Lemma nodup_nondefault : forall A (kv : list (string * A)),
+  NoDup (map fst kv) -> NoDup (nondefault_keys kv).
+Proof. intros. unfold nondefault_keys. apply NoDup_filter. assumption. Qed.
+
+Lemma nodup_assoc : forall A (kv : list (string * A)) k c,
+  NoDup (map fst kv) -> In (k, c) kv -> assoc k kv = Some c.
+Proof.
+  intros A kv. induction kv as [|[k' c'] r IH]; intros k c Hnd Hin; [inversion Hin|].
+  cbn [map fst] in Hnd. inversion Hnd as [|? ? Hnotin Hnd']; subst. cbn [assoc].
+  destruct Hin as [Heq|Hin].
+  - inversion Heq; subst. rewrite String.eqb_refl. reflexivity.
+  - destruct (String.eqb k k') eqn:E.
+    + apply String.eqb_eq in E. subst. exfalso. apply Hnotin.
+      apply in_map_iff. exists (k', c). split; [reflexivity| exact Hin].
+    + apply IH; assumption.
+Qed.
+
+Lemma active_selected : forall d (kv : list (string * tree)) k c,
+  NoDup (map fst kv) -> NoDup (parsed_values d (nondefault_keys kv)) ->
+  In (k, c) kv -> k <> default_key -> d_parse d k = Some (d_sel d) ->
+  active_entry d kv = Some c.
+Proof.
+  intros d kv k c Hnd Hv Hin Hk Hp. unfold active_entry.
+  destruct (find (fun p : string * tree => negb (is_default (fst p)) && is_sel d (fst p)) kv)
+    as [[k' c']|] eqn:E.
+  - apply find_some in E. destruct E as [Hin' Hpred]. cbn [fst] in Hpred.
+    apply andb_true_iff in Hpred. destruct Hpred as [Hd' Hs'].
+    apply negb_true_iff in Hd'. unfold is_sel in Hs'.
+    destruct (d_parse d k') as [v'|] eqn:Ep'; [|discriminate].
+    apply Nat.eqb_eq in Hs'. subst v'.
+    assert (k = k').
+    { apply (parsed_values_two d (nondefault_keys kv) k k' (d_sel d)); try assumption.
+      - apply nodup_nondefault. exact Hnd.
+      - apply nondefault_keys_in. split.
+        + apply in_map_iff. exists (k, c). split; [reflexivity| exact Hin].
+        + apply is_default_false. exact Hk.
+      - apply nondefault_keys_in. split.
+        + apply in_map_iff. exists (k', c'). split; [reflexivity| exact Hin'].
+        + exact Hd'. }
+    subst k'. cbn [snd].
+    pose proof (nodup_assoc _ kv k c Hnd Hin) as A1.
+    pose proof (nodup_assoc _ kv k c' Hnd Hin') as A2. congruence.
+  - exfalso. apply (find_none _ _ E) in Hin. cbn [fst] in Hin.
+    rewrite (is_default_false k Hk) in Hin. unfold is_sel in Hin. rewrite Hp in Hin.
+    rewrite Nat.eqb_refl in Hin. discriminate.
+Qed.
+
+Lemma find_default_assoc : forall A (kv : list (string * A)),
+  option_map snd (find (fun p => is_default (fst p)) kv) = assoc default_key kv.
+Proof.
+  intros A kv. induction kv as [|[k c] r IH]; [reflexivity|].
+  cbn [find fst assoc]. unfold is_default at 1. rewrite String.eqb_sym.
+  destruct (String.eqb default_key k); [reflexivity| exact IH].
+Qed.
+
+Lemma active_default : forall d (kv : list (string * tree)),
+  (forall k c, In (k, c) kv -> k <> default_key -> d_parse d k <> Some (d_sel d)) ->
+  active_entry d kv = assoc default_key kv.
+Proof.
+  intros d kv H. unfold active_entry.
+  destruct (find (fun p : string * tree => negb (is_default (fst p)) && is_sel d (fst p)) kv)
+    as [[k' c']|] eqn:E.
+  - exfalso. apply find_some in E. destruct E as [Hin Hpred]. cbn [fst] in Hpred.
+    apply andb_true_iff in Hpred. destruct Hpred as [Hd' Hs'].
+    apply negb_true_iff in Hd'. unfold is_sel in Hs'.
+    destruct (d_parse d k') as [v'|] eqn:Ep'; [|discriminate].
+    apply Nat.eqb_eq in Hs'. subst v'. apply (H k' c' Hin); [|exact Ep'].
+    intros ->. unfold is_default in Hd'. rewrite String.eqb_refl in Hd'. discriminate.
+  - rewrite <- find_default_assoc. destruct (find _ kv) as [p|]; reflexivity.
+Qed.
